@@ -9,4 +9,5 @@ CFG = dict(
     trusted_base=[],
     assumptions=[],
     shard=100,
+    extra=["c19_fs.run"],
 )
